@@ -466,4 +466,70 @@ def handle (e : Engines) (c : Conf) (u : Upstream) (q : Query) : Outcome :=
   | some o => o
   | none => handleMain e c u q
 
+/-! ## The dnsproxy response cache in front of the upstream (sequence mode)
+
+`proxy.Resolve` with `cache_size > 0`: the key is (lower-cased name, type); a
+cacheable upstream response is stored RAW (before AdGuard Home filters it); a
+hit answers from the stored message with every TTL set to the remaining
+lifetime, without contacting the upstream, and the response then goes through
+the same after-response stage.  Expiry and SERVFAIL / negative caching are
+outside the model (the scripted upstream has no authority section). -/
+
+structure CacheEntry where
+  name : Bytes
+  qtype : Nat
+  msg : Upstream
+  deriving Repr
+
+abbrev Cache := List CacheEntry
+
+def minTTL : List RR → Option Nat
+  | [] => none
+  | rr :: rest => match minTTL rest with
+    | none => some rr.ttl
+    | some t => some (min rr.ttl t)
+
+/-- `cacheTTL` ≠ 0 for the responses the scripted upstream can give -/
+def cacheable (u : Upstream) (q : Query) : Bool :=
+  match minTTL u.answer with
+  | none => false
+  | some t =>
+    t != 0 && u.rcode == rcSuccess &&
+    ((q.qtype != tA && q.qtype != tAAAA) ||
+     u.answer.any (fun rr => match rr.data with | .a _ => true | .aaaa _ => true | _ => false))
+
+/-- the stored message as a hit returns it: all TTLs equal (the remaining lifetime) -/
+def agedCopy (u : Upstream) : Upstream :=
+  match minTTL u.answer with
+  | none => u
+  | some t => { u with answer := u.answer.map (fun rr => { rr with ttl := t }) }
+
+def Cache.lookup (c : Cache) (q : Query) : Option Upstream :=
+  (c.find? (fun en => en.name == lower q.name && en.qtype == q.qtype)).map (·.msg)
+
+/-- a hit does not contact the upstream -/
+def dropLog : Outcome → Outcome
+  | .done m _ ql => .done m [] ql
+  | .err => .err
+
+def contacted : Outcome → Bool
+  | .done _ log _ => !log.isEmpty
+  | .err => false
+
+/-- One request against the proxy with the cache on: the outcome and the new cache. -/
+def handleCached (e : Engines) (c : Conf) (cache : Cache) (u : Upstream) (q : Query) : Outcome × Cache :=
+  match cache.lookup q with
+  | some stored =>
+    let o := handle e c stored q
+    (if contacted o then dropLog o else o, cache)
+  | none =>
+    let o := handle e c u q
+    (o, if contacted o && cacheable u q then
+          { name := lower q.name, qtype := q.qtype, msg := agedCopy u } :: cache
+        else cache)
+
+/-- the upstream message the step actually works on -/
+def usedUpstream (cache : Cache) (u : Upstream) (q : Query) : Upstream :=
+  match cache.lookup q with | some stored => stored | none => u
+
 end AGH.Filter
